@@ -365,3 +365,39 @@ Definition obs := (list (nat * nat) * (list (list (list nat)) * (list (list nat)
 Definition obs_eqb (a b : obs) : bool := eqb a b.
 Definition observe_is (cfg : config) (orc : oracle) (sched : list nat) (ths : list thread) (expected : obs) : bool :=
   obs_eqb (observe cfg orc sched ths) expected.
+
+(* ------------------------------------------------------------------ *)
+(* Threads that SHARE an id.  CPython gives live threads distinct idents, but two activities with one
+   ident do occur: (1) a NESTED query -- a trial of the running search asks the same optimizer object
+   about another contraction on the same thread (PartitionTreeBuilder.build_divide ->
+   contract_nodes(optimize=super_optimize) -> the preset's __call__); as far as shared state goes this
+   is a second "thread" with the same id that runs a whole query while the outer one is parked inside
+   its trial; (2) a thread that starts after another one died and inherits its ident.
+   The discipline under which this is harmless: whenever a thread takes a step, no OTHER thread with
+   the same id is inside the window between publishing its slot and fetching from it. *)
+Definition slot_sensitive (p : pc) : bool :=
+  match p with PRCacheSet _ _ _ | PRCacheOld _ _ _ | PRFetch _ _ => true | _ => false end.
+
+Fixpoint others_ok (i : nat) (t : tid) (j : nat) (ths : list thread) : bool :=
+  match ths with
+  | [] => true
+  | th :: r => (Nat.eqb j i || negb (Nat.eqb (t_id th) t) || negb (slot_sensitive (t_pc th)))
+               && others_ok i t (S j) r
+  end.
+
+Fixpoint disciplined (cfg : config) (orc : oracle) (sched : list nat) (st : state) (ths : list thread) : bool :=
+  match sched with
+  | [] => true
+  | i :: sched' =>
+      match nth_error ths i with
+      | None => disciplined cfg orc sched' st ths
+      | Some th =>
+          if finished th then disciplined cfg orc sched' st ths
+          else others_ok i (t_id th) 0 ths &&
+               let (st1, th1) := step_pc cfg orc st th in
+               disciplined cfg orc sched' st1 (upd_nth i (fun _ => th1) ths)
+      end
+  end.
+
+Definition observe_disciplined (cfg : config) (orc : oracle) (sched : list nat) (ths : list thread) : bool :=
+  disciplined cfg orc sched (init_state cfg) ths.
